@@ -103,8 +103,11 @@ class _BaseLSML(MahalanobisMixin):
     for vab, dab, vcd, dcd, w in zip(vab[violations], dabs[violations],
                                      vcd[violations], dcds[violations],
                                      self.w_[violations]):
-      dMetric += w * ((1 - np.sqrt(dcd / dab)) * np.outer(vab, vab) +
-                      (1 - np.sqrt(dab / dcd)) * np.outer(vcd, vcd))
+      if dcd > 0:
+        dMetric += w * ((1 - np.sqrt(dcd / dab)) * np.outer(vab, vab) +
+                        (1 - np.sqrt(dab / dcd)) * np.outer(vcd, vcd))
+      else:  # c == d: the residual is sqrt(dab), its gradient outer(vab, vab)
+        dMetric += w * np.outer(vab, vab)
     return dMetric
 
 
